@@ -1,6 +1,11 @@
 """C14: drive the REAL pypyr code (Context.get_eval_string, pypyr.steps.py, pypyr.steps.pyimport)
 on a case and canonicalise what can be seen from outside."""
 import builtins
+import importlib
+import os
+import shutil
+import sys
+import tempfile
 import types
 
 import c14_lang as L
@@ -47,6 +52,8 @@ class Canon:
         if isinstance(v, types.FunctionType):
             if v.__module__ == 'pypyr.steps.py' and v.__name__ == 'save':
                 return {'nat': '<save>'}
+            if getattr(v, '__module__', None) not in (None, 'builtins'):
+                return {'nat': f'{v.__module__}.{v.__name__}'}      # a function of an imported module
             return {'fn': [self.cid(v), v.__name__]}
         if isinstance(v, list):
             c = self.cid(v)
@@ -100,14 +107,72 @@ def snapshot(ctx):
     return [(k, v) for k, v in dict.items(ctx)]
 
 
+class Sandbox:
+    """The import environment of one case: the throw-away package written to a temp dir on
+    sys.path, nothing of it (nor pypyr's import-namespace cache) left over from another case."""
+
+    def __init__(self, case):
+        self.pkg = case.get('pkg')
+        self.tmp = None
+
+    def purge(self):
+        if self.pkg:
+            for m in [m for m in sys.modules if m == self.pkg or m.startswith(self.pkg + '.')]:
+                del sys.modules[m]
+
+    def __enter__(self):
+        from pypyr.cache.namespacecache import pystring_namespace_cache
+        pystring_namespace_cache.clear()
+        self.purge()
+        if self.pkg:
+            self.tmp = tempfile.mkdtemp(prefix='c14_')
+            for rel, src in L.pkg_files(self.pkg).items():
+                path = os.path.join(self.tmp, rel)
+                os.makedirs(os.path.dirname(path), exist_ok=True)
+                with open(path, 'w') as f:
+                    f.write(src)
+            sys.path.insert(0, self.tmp)
+            importlib.invalidate_caches()
+        # which modules of the table are already imported in this process (initial sys.modules)
+        self.loaded0 = [m for m, _ in L.case_mods({'pkg': self.pkg}) if m in sys.modules]
+        return self
+
+    def __exit__(self, *exc):
+        if self.tmp:
+            if self.tmp in sys.path:
+                sys.path.remove(self.tmp)
+            shutil.rmtree(self.tmp, ignore_errors=True)
+            importlib.invalidate_caches()
+        self.purge()
+        return False
+
+
 def run_eval_case(case):
+    with Sandbox(case) as sb:
+        obs = _run_eval_case(case)
+        obs['loaded0'] = sb.loaded0
+        return obs
+
+
+def run_exec_case(case):
+    with Sandbox(case) as sb:
+        obs = _run_exec_case(case)
+        obs['loaded0'] = sb.loaded0
+        return obs
+
+
+def _run_eval_case(case):
     from pypyr.context import Context
     import pypyr.steps.pyimport as pyimport
     heap, cdict = build(case)
     ctx = Context(cdict)
+    import_error = None
     if case.get('imports'):
         ctx['pyImport'] = import_source(case['imports'])
-        pyimport.run_step(ctx)
+        try:
+            pyimport.run_step(ctx)
+        except Exception as e:   # noqa
+            import_error = e
         del ctx['pyImport']
     before = snapshot(ctx)
     imps_before = list(ctx._pystring_globals.keys())
@@ -115,6 +180,8 @@ def run_eval_case(case):
     raw, plain_now = [], []
     for src in srcs:
         try:
+            if import_error is not None:
+                raise import_error
             raw.append(('ok', ctx.get_eval_string(src)))
             plain_now.append(['ok', plain(raw[-1][1])])      # value at this moment (later !py may mutate it)
         except Exception as e:   # noqa
@@ -124,12 +191,22 @@ def run_eval_case(case):
     obs = finish(case, heap, ctx, raw, before, after)
     obs['src'] = srcs
     obs['imps_keys_before'] = imps_before
-    # second oracle: plain eval of each expression in a fresh dict(context) (+ imports underneath),
-    # over a second copy of the case's objects so in-place mutations are replayed, not shared
+    obs['pyimport_error'] = None if import_error is None else f'{type(import_error).__name__}: {import_error}'
+    # second oracle, plain Python: exec the same import source into a fresh namespace, then eval each
+    # expression in a fresh {**that namespace, **dict(context)} — over a second copy of the case's
+    # objects so in-place mutations are replayed, not shared
     heap2, cdict2 = build(case)
+    imp_ns = {}
+    obs['oracle_import_error'] = None
+    if case.get('imports'):
+        try:
+            exec(import_source(case['imports']), imp_ns)
+        except Exception as e:   # noqa
+            obs['oracle_import_error'] = f'{type(e).__name__}: {e}'
+        imp_ns.pop('__builtins__', None)
     pl = []
     for src in srcs:
-        d = dict(ctx._pystring_globals)
+        d = dict(imp_ns)
         d.update(cdict2)
         try:
             pl.append(['ok', plain(eval(src, d))])
@@ -140,7 +217,7 @@ def run_eval_case(case):
     return obs
 
 
-def run_exec_case(case):
+def _run_exec_case(case):
     from pypyr.context import Context
     import pypyr.steps.py as pystep
     heap, cdict = build(case)
